@@ -240,7 +240,7 @@ func execCase(c Case) (res vt.Result) {
 	defer cleanup()
 	e := &env{plan: drive.UserPlan(5, 1000, 1<<16)}
 	for k := 0; k < c.Nodes; k++ {
-		host := fmt.Sprintf("127.0.1.%d", k+1)
+		host := drive.LoopbackHost(k + 1)
 		e.specs = append(e.specs, drive.NodeSpec{Host: host, Port: drive.FreePort(host)})
 		e.servers = append(e.servers, e.specs[k].Name())
 	}
@@ -349,11 +349,32 @@ func execCase(c Case) (res vt.Result) {
 				}
 				failedSet[f.Id] = f.Err
 			}
+			// an error answer breaks the RPC connection it travelled on: other calls of the same request that are
+			// in flight to the same server may fail with it. For ids living on such a server either outcome is
+			// accepted as long as the response tells the truth (verified below by reading every point back)
+			rejectedServers := map[string]bool{}
+			for sh := range rejectedShards {
+				rejectedServers[serverOf[sh]] = true
+			}
+			collateral := func(id uuid.UUID) bool {
+				for _, sh := range where[id] {
+					if rejectedServers[serverOf[sh]] && serverOf[sh] != e.servers[st.Via] {
+						return true
+					}
+				}
+				return false
+			}
 			var apply []model.Point
+			ambiguous := 0
 			for _, p := range st.Points {
 				_, exists := m.Docs[p.Id]
 				processed := exists && !unreachable(p.Id) && !inRejected(p.Id)
 				msg, isFailed := failedSet[p.Id]
+				if exists && !unreachable(p.Id) && !inRejected(p.Id) && collateral(p.Id) {
+					processed = !isFailed
+					ambiguous++
+					rec.Count("ids_on_a_server_whose_connection_carried_an_error", 1)
+				}
 				if processed == isFailed {
 					return fail("id %s: stored=%v on-unavailable-server=%v in-a-shard-that-rejected-its-batch=%v, but listed-as-failed=%v (%q)", p.Id, exists, unreachable(p.Id), inRejected(p.Id), isFailed, msg)
 				}
@@ -367,7 +388,7 @@ func execCase(c Case) (res vt.Result) {
 					apply = append(apply, p)
 				}
 			}
-			if len(failedSet) != countUnprocessed(st.Points, m, func(id uuid.UUID) bool { return unreachable(id) || inRejected(id) }) {
+			if ambiguous == 0 && len(failedSet) != countUnprocessed(st.Points, m, func(id uuid.UUID) bool { return unreachable(id) || inRejected(id) }) {
 				return fail("failed list %v does not match the requested ids that no shard processed", failed)
 			}
 			m.Update(apply)
@@ -404,7 +425,7 @@ func execCase(c Case) (res vt.Result) {
 					return fail("search failed although every shard server is available: %v", err)
 				}
 				rec.Count("search_errors_with_server_down", 1)
-			} else if err := checkSearch(m, *st.Search, req, results); err != nil {
+			} else if err := checkSearch(m, *st.Search, req, results, len(col.ShardIds)); err != nil {
 				return fail("%v", err)
 			}
 		}
@@ -472,7 +493,7 @@ func countUnprocessed(points []model.Point, m *model.Collection, unreachable fun
 	return n
 }
 
-func checkSearch(m *model.Collection, sp SearchSpec, req models.SearchRequest, results []models.SearchResult) error {
+func checkSearch(m *model.Collection, sp SearchSpec, req models.SearchRequest, results []models.SearchResult, nshards int) error {
 	if len(results) > sp.Limit {
 		return fmt.Errorf("%d rows for limit %d", len(results), sp.Limit)
 	}
@@ -523,8 +544,11 @@ func checkSearch(m *model.Collection, sp SearchSpec, req models.SearchRequest, r
 				if cmpSort(m.Docs[prev.Point.Id], want, sp.Sort) > 0 {
 					return fmt.Errorf("rows %d and %d are not ordered by the sort keys %v (missing last)", i-1, i, sp.Sort)
 				}
-			} else if r.HybridScore > prev.HybridScore {
-				return fmt.Errorf("rows %d and %d: hybrid score %v after %v, merged rows are not ordered highest first", i-1, i, r.HybridScore, prev.HybridScore)
+			} else if nshards > 1 && r.HybridScore > prev.HybridScore {
+				return fmt.Errorf("rows %d and %d: hybrid score %v after %v, rows merged from %d shards are not ordered highest first", i-1, i, r.HybridScore, prev.HybridScore, nshards)
+			} else if nshards == 1 && r.Distance != nil && prev.Distance != nil && *r.Distance < *prev.Distance {
+				// a single shard's answer is not merged: a single vector search keeps its own order (nearest first)
+				return fmt.Errorf("rows %d and %d: distance %v after %v in a single-shard vector search", i-1, i, *r.Distance, *prev.Distance)
 			}
 		}
 		prev = r
